@@ -38,6 +38,7 @@ def run_generator(plugin: str, out_dir: str, models: Optional[Sequence[str]] = N
               "cwd"      - the same command from an unrelated working directory;
               "relative" - from the parent of the output directory, every path given relative to it;
               "minpath"  - as default, with a search path that holds no developer tools;
+              "optimised" - as default, under `python -O` (assert statements are not executed);
               "elsewhen" - as default, on another day (clock shifted), as another user on another machine whose file system
                            lists directories in another order."""
     test_dir = prepare_test_dir(plugin, out_dir)
@@ -48,7 +49,7 @@ def run_generator(plugin: str, out_dir: str, models: Optional[Sequence[str]] = N
     elif spelling == "relative":
         cwd = os.path.dirname(os.path.abspath(out_dir))
     rel = (lambda p: os.path.relpath(p, cwd)) if spelling == "relative" else (lambda p: p)
-    cmd = [PY, "-B", "-m", "generator", "--plugin", plugin, "--output-dir", rel(out_dir), "--test-dir", rel(test_dir)]
+    cmd = [PY, "-B"] + (["-O"] if spelling == "optimised" else []) + ["-m", "generator", "--plugin", plugin, "--output-dir", rel(out_dir), "--test-dir", rel(test_dir)]
     if models:
         cmd += ["--model", *[rel(m) for m in models]]
     env = dict(os.environ)
